@@ -22,6 +22,9 @@ func NewServerTLSConfig(ctx context.Context, certs []tls.Certificate, cquery cty
 		ClientAuth:         tls.RequestClientCert,
 		InsecureSkipVerify: true, // nolint: gosec
 		MinVersion:         tls.VersionTLS13,
+		// a resumed session skips VerifyPeerCertificate, which would keep a
+		// revoked or expired certificate usable for the lifetime of the ticket
+		SessionTicketsDisabled: true,
 		VerifyPeerCertificate: func(certificates [][]byte, _ [][]*x509.Certificate) error {
 			if len(certificates) > 0 {
 				if len(certificates) != 1 {
